@@ -599,7 +599,7 @@ spif_mbuff_splice(spif_mbuff_t self, spif_memidx_t idx, spif_memidx_t cnt, spif_
         memcpy(ptmp, other->buff, other->len);
         ptmp += other->len;
     }
-    memcpy(ptmp, self->buff + idx + cnt, self->len - idx - cnt + 1);
+    memcpy(ptmp, self->buff + idx + cnt, self->len - idx - cnt);
     if (self->size < newsize) {
         self->buff = (spif_byteptr_t) REALLOC(self->buff, newsize);
         self->size = newsize;
